@@ -98,6 +98,7 @@ pub const MANAGED_ENV: &[&str] = &[
     "RV_A",
     "RV_B",
     "RV_UNSET",
+    "RV_BIN",
     "XDG_CONFIG_HOME",
     "XDG_CONFIG_DIRS",
     "XDG_DATA_HOME",
@@ -119,7 +120,12 @@ pub fn set_env(env: &Env) {
         std::env::remove_var("PATH");
     }
     for (k, v) in env {
-        std::env::set_var(k, v);
+        if v == "<non-utf8>" {
+            use std::os::unix::ffi::OsStrExt;
+            std::env::set_var(k, std::ffi::OsStr::from_bytes(b"caf\xe9"));
+        } else {
+            std::env::set_var(k, v);
+        }
     }
 }
 
